@@ -370,6 +370,59 @@ __CPROVER_ensures(__CPROVER_old(aio->a_skipped_callback) == NULL ==> (g_dispatch
 __CPROVER_ensures(g_prep == __CPROVER_old(g_prep))
 ;
 
+/* nng_aio_stop (C02): stop latch set (every later start is refused), the provider's cancel function runs at most
+ * once with NNG_ESTOPPED if the slot was occupied, the expire thread's hold is waited out, and the call waits for
+ * the callback exactly once AFTER the cancel hand-off with no lock held: when it returns nothing is pending. */
+void nng_aio_stop(nng_aio *aio)
+__CPROVER_requires(AIO_PRE(aio) && VP_NO_LOCK_HELD)
+__CPROVER_assigns(AIO_FINISH_FIELDS(aio), aio->a_abort, AIO_ABORT_CODE(aio), aio->a_stop, aio->a_expiring)
+__CPROVER_assigns(aio->a_skipped_callback != NULL: *aio->a_skipped_callback)
+__CPROVER_assigns(AIO_TASK_GHOSTS, AIO_CANCEL_GHOSTS, g_exp_on, g_cv_waits, g_task_wait, g_cancel_at_wait, g_pending, g_blocked_waits, VP_SYNC_GHOSTS)
+__CPROVER_ensures(VP_NO_LOCK_HELD && aio->a_cancel_fn == NULL && aio->a_cancel_arg == NULL && !g_exp_on)
+__CPROVER_ensures(aio->a_stop && !aio->a_expiring && !g_pending && aio->a_abort == __CPROVER_old(aio->a_abort))
+__CPROVER_ensures(g_task_wait == __CPROVER_old(g_task_wait) + 1 && g_cancel_at_wait == g_cancel_calls)
+__CPROVER_ensures(__CPROVER_old(aio->a_cancel_fn) == vp_cancel ==> (g_cancel_calls == __CPROVER_old(g_cancel_calls) + 1 && g_cancel_aio == aio && g_cancel_arg == __CPROVER_old(aio->a_cancel_arg) && g_cancel_rv == (int) NNG_ESTOPPED))
+__CPROVER_ensures(__CPROVER_old(aio->a_cancel_fn) != vp_cancel ==> g_cancel_calls == __CPROVER_old(g_cancel_calls))
+__CPROVER_ensures((__CPROVER_old(aio->a_cancel_fn) == nni_sleep_cancel && __CPROVER_old(aio->a_sleep)) ==> (aio->a_result == NNG_ESTOPPED && !aio->a_sleep && AIO_ONE_ASYNC_COMPLETION(aio, __CPROVER_old(aio->a_skipped_callback), __CPROVER_old(g_dispatched), __CPROVER_old(g_exec))))
+/* a stop code is reported only if the operation had not already completed */
+__CPROVER_ensures(!(__CPROVER_old(aio->a_cancel_fn) == nni_sleep_cancel && __CPROVER_old(aio->a_sleep)) ==> (AIO_NO_COMPLETION(__CPROVER_old(g_dispatched), __CPROVER_old(g_exec)) && aio->a_result == __CPROVER_old(aio->a_result) && aio->a_count == __CPROVER_old(aio->a_count)))
+__CPROVER_ensures(g_prep == __CPROVER_old(g_prep) && AIO_INV_POST(aio))
+;
+
+/* nng_sleep_aio (C02, "a timeout never fires before the configured duration"): clauses of aiocore/sleep_aio */
+void nng_sleep_aio(nng_duration ms, nng_aio *aio)
+__CPROVER_requires(AIO_PRE(aio) && AIO_IDLE(aio))
+__CPROVER_requires(aio->a_timeout >= NNG_DURATION_DEFAULT && ms >= NNG_DURATION_INFINITE && !aio->a_use_expire)
+__CPROVER_assigns(aio->a_expire, aio->a_expire_ok, aio->a_skipped_callback, aio->a_stop, aio->a_sleep, aio->a_count, aio->a_result, aio->a_stopped, aio->a_abort, aio->a_cancel_fn, aio->a_cancel_arg, aio->a_expire_q->eq_next, __CPROVER_object_upto(aio->a_outputs, sizeof(aio->a_outputs)))
+__CPROVER_assigns(AIO_TASK_GHOSTS, g_now, g_clock_calls, g_exp_on, g_exp_add, g_cv_wake, VP_SYNC_GHOSTS)
+__CPROVER_ensures(VP_NO_LOCK_HELD && g_prep == __CPROVER_old(g_prep) + 1 && g_exec == __CPROVER_old(g_exec) && AIO_INV_POST(aio))
+__CPROVER_ensures(aio->a_sleep ? (aio->a_cancel_fn == nni_sleep_cancel && g_dispatched == __CPROVER_old(g_dispatched) && aio->a_result == NNG_OK && !__CPROVER_old(aio->a_stop) && !__CPROVER_old(aio->a_expire_q->eq_stop))
+                               : (aio->a_cancel_fn == NULL && g_dispatched == __CPROVER_old(g_dispatched) + 1 && !g_exp_on && aio->a_result == NNG_ESTOPPED && (__CPROVER_old(aio->a_stop) || __CPROVER_old(aio->a_expire_q->eq_stop))))
+__CPROVER_ensures((aio->a_sleep && aio->a_timeout < 0) ==> (aio->a_expire_ok && aio->a_expire == (ms == NNG_DURATION_INFINITE ? NNI_TIME_NEVER : g_now + (nni_time) ms)))
+__CPROVER_ensures((aio->a_sleep && aio->a_timeout >= 0 && ms != NNG_DURATION_INFINITE && ms <= aio->a_timeout) ==> (aio->a_expire_ok && aio->a_expire == g_now + (nni_time) ms))
+__CPROVER_ensures((aio->a_sleep && aio->a_timeout >= 0 && (ms == NNG_DURATION_INFINITE || ms > aio->a_timeout)) ==> (!aio->a_expire_ok && aio->a_expire == g_now + (nni_time) aio->a_timeout))
+__CPROVER_ensures(aio->a_sleep ==> (g_exp_on == (aio->a_expire != NNI_TIME_NEVER) && g_now >= __CPROVER_old(g_now)))
+;
+
+/* nng_aio_reset / nng_aio_busy / nng_aio_wait: pass-throughs with the aiocore clauses */
+void nng_aio_reset(nng_aio *aio)
+__CPROVER_requires(__CPROVER_is_fresh(aio, sizeof(*aio)))
+__CPROVER_assigns(aio->a_result, aio->a_count, aio->a_abort, aio->a_expire_ok, aio->a_sleep, aio->a_skipped_callback, __CPROVER_object_upto(aio->a_outputs, sizeof(aio->a_outputs)))
+__CPROVER_ensures(aio->a_result == NNG_OK && aio->a_count == 0 && !aio->a_abort && !aio->a_expire_ok && !aio->a_sleep && aio->a_skipped_callback == NULL)
+__CPROVER_ensures(aio->a_outputs[0] == NULL && aio->a_outputs[1] == NULL && aio->a_outputs[2] == NULL && aio->a_outputs[3] == NULL)
+;
+bool nng_aio_busy(nng_aio *aio)
+__CPROVER_requires(AIO_PRE0(aio))
+__CPROVER_assigns()
+__CPROVER_ensures(__CPROVER_return_value == (g_busy != 0))
+;
+void nng_aio_wait(nng_aio *aio)
+__CPROVER_requires(AIO_PRE0(aio) && VP_NO_LOCK_HELD)
+__CPROVER_assigns(g_task_wait, g_cancel_at_wait, g_pending, g_blocked_waits)
+/* waits on the aio's own task exactly once (no lock held: asserted in the stub); nothing is pending when it returns */
+__CPROVER_ensures(g_task_wait == __CPROVER_old(g_task_wait) + 1 && !g_pending)
+;
+
 /* nng_aio_start (provider API, C02): every operation offered through the public wrapper starts CLEAN.
  * A cancel that lost the race with the completion of the PREVIOUS operation left its code latched
  * (a_abort); the wrapper discards it (nni_aio_reset) before nni_aio_start looks at the latch, so
